@@ -237,8 +237,11 @@ def run(ctx, replay_ops=None):
         one_run(ctx, env, replay_ops, "replay")
     else:
         cops = corpus_ops()
-        if cops:
-            one_run(ctx, {}, cops, "corpus")
+        if cops:     # the corpus cases run first, in the same harness process as the generated ones
+            pf = os.path.join(ctx.work, NAME + ".prefix")
+            open(pf, "w").write("\n".join(cops) + "\n")
+            env["VERIF_C44_PREFIX"] = pf
+            ctx.cov["distribution"]["corpus-ops"] = len(cops)
         one_run(ctx, env, None, "random")
     ctx.cov.pop("_seen", None)
 
